@@ -72,6 +72,7 @@ CONS = (2, 1)           # consumer applications
 # removes exactly the expired objects
 OBJ_ALT = 5000
 EXPIRED_ID = 2          # the third object of the set-up has expired when the run starts
+TWIN_TOKEN = 777        # objects added with this token at the same virtual time are content-identical (only the id differs)
 EXTRA = {"smc": 1, "smo": 2, "smic": 3, "ac": 0, "radius": 10, "rd": 1, "td": 0}
 
 
@@ -662,8 +663,15 @@ def oracle(world, calls, threads_exc, deadlock):
             named.setdefault(c["op"][1], []).append(c)
     # no added object lost / duplicated
     toks = [t for _, t in fin["items"]]
-    if len(toks) != len(set(toks)):
-        bad.append(("object_duplicated", "the same object is stored twice", fin["items"]))
+    added_n = {}
+    for c, i in adds:
+        if i >= 0:
+            added_n[c["op"][1]] = added_n.get(c["op"][1], 0) + 1
+    for t in set(toks):
+        # an updated object carries the token of its update: only tokens that come from add operations are counted
+        if t in added_n and toks.count(t) > added_n[t]:
+            bad.append(("object_duplicated", f"token {t} is stored {toks.count(t)} times but was added {added_n[t]} times",
+                        fin["items"]))
     for c, i in adds:
         tok = c["op"][1]
         if i < 0:
@@ -696,8 +704,10 @@ def oracle(world, calls, threads_exc, deadlock):
         if c["op"][0] != "query" or not c["atoms"]:
             continue
         got = c["atoms"][0][3][1]
-        if len(got) != len(set(got)):
-            bad.append(("query_duplicate", "a query returned the same object twice", got))
+        for t in set(got):
+            if got.count(t) > max(1, added_n.get(t, 1)):
+                bad.append(("query_duplicate", f"a query returned token {t} {got.count(t)} times; it was added "
+                            f"{added_n.get(t, 0)} times", got))
         for t in got:
             if t not in born or born[t] > c["resp"]:
                 bad.append(("query_phantom", f"a query returned token {t} which no operation had started to store", got))
@@ -898,20 +908,32 @@ def run_scenario(ctx, lin, name, variant, programs, bound, max_runs, random_runs
 # ------------------------------------------------------------------------------------------------ sequential correspondence
 def sequential_cases(ctx, lin, n_cases):
     """single-threaded random histories: responses and final state of the real LDM = the specification (correspondence)"""
-    kinds = list(OPS)
+    kinds = list(OPS) + ["addtwin", "addtwin", "deltwin", "updtwin"]
     for ci in range(n_cases):
         variant = ctx.rng.choice(["Reactive", "Thread"])
-        ops = []
-        for k in range(ctx.rng.randint(1, 10)):
-            name = ctx.rng.choice(kinds)
-            ops.append((name, OPS[name](k)))
-        w = World(variant, SETUP_BASE, expired_tokens([[o for _, o in ops]]))
+        names = [ctx.rng.choice(kinds) for _ in range(ctx.rng.randint(1, 10))]
+        # object 2 may be updated: its tokens are known before the world is built
+        pre = [[OPS[n](k) for k, n in enumerate(names) if n in OPS]]
+        w = World(variant, SETUP_BASE, expired_tokens(pre))
         atoms = list(w.setup_atoms)
         observed = []
+        ops = []
+        twins = []           # identifiers of the content-identical objects added in this history (same token, same time)
         err = None
         try:
-            for name, o in ops:
+            for k, name in enumerate(names):
+                if name == "addtwin":
+                    o = ("add", TWIN_TOKEN, 1000)
+                elif name == "deltwin":
+                    o = ("del", twins[-1] if twins else 7)
+                elif name == "updtwin":
+                    o = ("upd", twins[0] if twins else 7, 350 + k)
+                else:
+                    o = OPS[name](k)
+                ops.append((name, o))
                 c = w.call(0, o)
+                if name == "addtwin" and c["atoms"] and c["atoms"][0][3][1] >= 0:
+                    twins.append(c["atoms"][0][3][1])
                 atoms += c["atoms"]
                 observed += [a[3] for a in c["atoms"]]
         except Exception as e:  # noqa: BLE001
